@@ -237,6 +237,18 @@ def index_kill_scenarios():
     return out
 
 
+def index_blocked_scenarios():
+    """Process 1 holds the experiment and submits jobs; process 2 tries to enter the same experiment and is killed at every
+    point of its attempt; process 1 then ends normally: its index must be exactly its plan."""
+    out = []
+    for jobs in ((1,), (1, 2)):
+        p1 = [XP("x", [J(f"a{x}", x) for x in jobs]), {"op": "index", "name": "x"}]
+        p2 = [XP("x", [J("b9", 9)])]
+        out.append(sc(f"idxblocked:{jobs}", "index:blocked", [p1, p2], fine=True, kill=True, kill_pid=2, only_if_other_killed_first=True,
+                      history={"p1": [{"jobs": list(jobs), "end": "ok"}]}))
+    return out
+
+
 def index_twoproc_scenarios():
     return [sc("idx:2proc-same-experiment", "index:2proc", [[XP("x", [J("a", 1)])], [XP("x", [J("b", 2)])]], fine=True)]
 
